@@ -190,7 +190,18 @@ pub fn run(o: &Opts) -> i32 {
                 let debug_first = rng.coin();
                 run_no += 1;
                 let rid = (ci as u64) << 16 | run_no;
-                let r = match child::run(&ctx.simc, &simc_argv(&file, debug, debug_first), hs, &Io::default()) {
+                // stdout is a pipe or, every other run, a regular file
+                let to_file = rng.coin();
+                let io0 = Io { stdout_file: if to_file { Some(dir.join("stdout.txt")) } else { None }, ..Io::default() };
+                rep.count(if to_file { "simc_stdout_regular_file" } else { "simc_stdout_pipe" }, 1);
+                // thorough: one run in three uses the simc built with --features serde (no witness file)
+                let alt = o.verif.join("build/simc-serde-target/debug/simc");
+                let use_alt = thorough && alt.exists() && rng.below(3) == 0;
+                if use_alt {
+                    rep.count("simc_runs_with_serde_feature_build", 1);
+                }
+                let simc_bin = if use_alt { &alt } else { &ctx.simc };
+                let r = match child::run(simc_bin, &simc_argv(&file, debug, debug_first), hs, &io0) {
                     Ok(r) => r,
                     Err(e) => {
                         eprintln!("legC: cannot run simc: {e}");
@@ -222,7 +233,7 @@ pub fn run(o: &Opts) -> i32 {
                 run_no += 1;
                 let rid = (ci as u64) << 16 | run_no;
                 let log = dir.join("io.log");
-                let io = Io { seed: Some((ios, TRANSPARENT_RATES.to_string())), plan: None, log: Some(log.clone()) };
+                let io = Io { seed: Some((ios, TRANSPARENT_RATES.to_string())), plan: None, log: Some(log.clone()), stdout_file: None };
                 let r = match child::run(&ctx.simc, &simc_argv(&file, debug, false), hs, &io) {
                     Ok(r) => r,
                     Err(e) => {
@@ -267,7 +278,7 @@ pub fn run(o: &Opts) -> i32 {
                 let hs = rng.next() | 1;
                 let ios = rng.next();
                 let log = dir.join("io.log");
-                let io = Io { seed: Some((ios, HOSTILE_RATES.to_string())), plan: None, log: Some(log.clone()) };
+                let io = Io { seed: Some((ios, HOSTILE_RATES.to_string())), plan: None, log: Some(log.clone()), stdout_file: None };
                 if let Ok(r) = child::run(&ctx.simc, &simc_argv(&file, debug, false), hs, &io) {
                     let (plan, counts, _, _) = child::read_log(&log);
                     rep.count("hostile_runs_recorded_not_judged", 1);
